@@ -3,9 +3,11 @@
 #include <fcntl.h>
 #include <sys/socket.h>
 #include <sys/epoll.h>
+#include <signal.h>
 
-enum { ST_TIMER, ST_DATA, ST_READ, ST_WRITE, ST_N };
-static const char *const stn[ST_N] = { "timer", "data-add", "read", "write" };
+enum { ST_TIMER, ST_DATA, ST_READ, ST_WRITE, ST_SIGNAL, ST_N };
+static const char *const stn[ST_N] = { "timer", "data-add", "read", "write", "signal" };
+#define C16_SIGNO SIGUSR1
 enum { CM_BEFORE_ACTIVATE, CM_FROM_HANDLER, CM_FROM_TARGET_ITEM, CM_OTHER_THREAD, CM_TWICE, CM_AND_WAIT, CM_N };
 static const char *const cmn[CM_N] = { "cancel before activation", "cancel from its own handler", "cancel from an item on its serial target queue",
 	"cancel from another thread", "cancel twice from other threads", "dispatch_source_cancel_and_wait from another thread" };
@@ -22,7 +24,7 @@ static struct {
 	int ch_count, ch_on_queue, ch_saw_registration, ch_while_handler;
 	uint64_t last_handler_end;
 	int fd_closed;
-	int sib_events, caw_late_starts, caw_returned_while_running;
+	int sib_events, caw_late_starts, caw_returned_while_running, raised;
 	int done, nthreads;
 	int activated;
 	sim_event handler_seen;
@@ -56,6 +58,7 @@ static void event_handler(void *ctx) {
 		h_viol("handler-after-cancel", "%d event handler invocations started after dispatch_source_cancel had returned (at most the one already committed may)", C.starts_after_cancel_ret);
 	if (C.cmode == CM_AND_WAIT && C.caw_ret) C.caw_late_starts++;
 	if (C.fd_closed && C.ch_count && (C.stype == ST_READ || C.stype == ST_WRITE)) h_viol("handler-after-close", "event handler ran after the cancellation handler had closed the descriptor");
+	if (C.stype == ST_SIGNAL && (n == 0 || n > (unsigned long)C.raised)) h_viol("signal-count", "signal source handler reports %lu deliveries, %d signals were raised", n, C.raised);
 	if (C.stype == ST_READ) {
 		char buf[256]; size_t want = n < sizeof buf ? (n ? n : 1) : sizeof buf;
 		ssize_t r = read(C.mon_fd, buf, want); (void)r;
@@ -84,14 +87,19 @@ static void cancel_handler(void *ctx) {
 		if (reg & dir) h_viol("still-monitored", "the descriptor is still registered for %s with epoll when the cancellation handler starts", C.stype == ST_READ ? "reading" : "writing");
 		if (!C.sibling) { h_log("cancel handler closes fd %d", C.mon_fd); close(C.mon_fd); C.fd_closed = 1; }
 	}
+	if (C.stype == ST_SIGNAL && !C.sibling) {
+		int sf = sim_signalfd_of(C16_SIGNO);
+		if (sf >= 0 && (sim_epoll_registered(sf) & EPOLLIN)) h_viol("still-monitored", "the signal is still monitored (signalfd registered with epoll) when the cancellation handler starts");
+	}
 	h_progress();
 }
 static int sib_suspended;
 static void sib_handler(void *ctx) {
 	(void)ctx; C.sib_events++;
 	char b[32]; if (C.stype == ST_WRITE) { ssize_t r = read(C.mon_fd, b, sizeof b); (void)r; }
+	if (C.stype == ST_SIGNAL) return;
 	// a level-triggered source whose condition stays true would fire for ever: park it after a few events
-	if (C.sib_events >= 3 && !sib_suspended) { sib_suspended = 1; dispatch_suspend(C.sib); }
+	if (C.sib_events >= 3 && !sib_suspended) { dispatch_suspend(C.sib); sib_suspended = 1; }   // flag after the call: the main thread resumes only a suspension that has happened
 }
 static void target_item_cancel(void *ctx) { (void)ctx; do_cancel("item on target queue"); }
 
@@ -100,6 +108,7 @@ static void *event_source_thread(void *arg) {
 	// generates events: merges for data sources, bytes for read sources, drains for write sources
 	for (int i = 0; i < 14; i++) {
 		if (C.stype == ST_DATA) dispatch_source_merge_data(C.ds, 1 + (unsigned long)i);
+		else if (C.stype == ST_SIGNAL) { C.raised++; h_log("signal raised (%d)", C.raised); sim_signal_raise(C16_SIGNO); }
 		else if (C.stype == ST_READ) {
 			if (C.peer_closes && i == C.peer_closes) { h_log("peer closes its end"); close(C.fds[1]); C.fds[1] = -1; break; }
 			char buf[40]; memset(buf, 'r', sizeof buf);
@@ -153,10 +162,10 @@ static void c16_run(void) {
 	C.tqkind = C.cmode == CM_FROM_TARGET_ITEM ? 0 : (int)g_n(3);
 	C.use_socket = g_chance(1, 2); C.peer_closes = g_chance(1, 2) ? g_range(1, 10) : 0;
 	C.cancel_after = g_range(0, 3);
-	C.sibling = (C.stype == ST_READ || C.stype == ST_WRITE) && C.use_socket && g_chance(1, 3);
+	C.sibling = ((C.stype == ST_READ || C.stype == ST_WRITE) && C.use_socket && g_chance(1, 3)) || (C.stype == ST_SIGNAL && g_chance(1, 3));
 	h_sample("%s source on a %s queue%s; %s after >= %d handler invocation(s)%s%s\n", stn[C.stype], C.tqkind == 0 ? "serial" : C.tqkind == 1 ? "concurrent" : "global",
-		(C.stype >= ST_READ) ? (C.use_socket ? " (socketpair)" : " (pipe)") : "", cmn[C.cmode], C.cancel_after, C.peer_closes ? "; the peer closes its end during the run" : "",
-		C.sibling ? "; a second source monitors the other direction of the same descriptor" : "");
+		(C.stype == ST_READ || C.stype == ST_WRITE) ? (C.use_socket ? " (socketpair)" : " (pipe)") : "", cmn[C.cmode], C.cancel_after, (C.peer_closes && (C.stype == ST_READ || C.stype == ST_WRITE)) ? "; the peer closes its end during the run" : "",
+		C.sibling ? (C.stype == ST_SIGNAL ? "; a second source monitors the same signal" : "; a second source monitors the other direction of the same descriptor") : "");
 	h_announce();
 	C.tq = C.tqkind == 0 ? dispatch_queue_create("c16-serial", NULL) : C.tqkind == 1 ? dispatch_queue_create("c16-conc", DISPATCH_QUEUE_CONCURRENT) : dispatch_get_global_queue(0, 0);
 	if (C.tqkind != 2) dispatch_queue_set_specific(C.tq, &C.key, &C.key, NULL);
@@ -170,6 +179,7 @@ static void c16_run(void) {
 	case ST_TIMER: C.ds = dispatch_source_create(DISPATCH_SOURCE_TYPE_TIMER, 0, 0, C.tq); dispatch_source_set_timer(C.ds, dispatch_time(DISPATCH_TIME_NOW, 20000), 40000 + g_n(100000), 0); break;
 	case ST_DATA: C.ds = dispatch_source_create(DISPATCH_SOURCE_TYPE_DATA_ADD, 0, 0, C.tq); break;
 	case ST_READ: C.ds = dispatch_source_create(DISPATCH_SOURCE_TYPE_READ, (uintptr_t)C.mon_fd, 0, C.tq); break;
+	case ST_SIGNAL: C.ds = dispatch_source_create(DISPATCH_SOURCE_TYPE_SIGNAL, C16_SIGNO, 0, C.tq); break;
 	default: C.ds = dispatch_source_create(DISPATCH_SOURCE_TYPE_WRITE, (uintptr_t)C.mon_fd, 0, C.tq); break;
 	}
 	if (!C.ds) h_viol("create", "dispatch_source_create failed");
@@ -177,7 +187,8 @@ static void c16_run(void) {
 	dispatch_source_set_event_handler_f(C.ds, event_handler);
 	if (C.cmode != CM_AND_WAIT) dispatch_source_set_cancel_handler_f(C.ds, cancel_handler);
 	if (C.sibling) {
-		C.sib = dispatch_source_create(C.stype == ST_READ ? DISPATCH_SOURCE_TYPE_WRITE : DISPATCH_SOURCE_TYPE_READ, (uintptr_t)C.mon_fd, 0, dispatch_get_global_queue(0, 0));
+		if (C.stype == ST_SIGNAL) C.sib = dispatch_source_create(DISPATCH_SOURCE_TYPE_SIGNAL, C16_SIGNO, 0, dispatch_get_global_queue(0, 0));
+		else C.sib = dispatch_source_create(C.stype == ST_READ ? DISPATCH_SOURCE_TYPE_WRITE : DISPATCH_SOURCE_TYPE_READ, (uintptr_t)C.mon_fd, 0, dispatch_get_global_queue(0, 0));
 		dispatch_source_set_event_handler_f(C.sib, sib_handler);
 		dispatch_activate(C.sib);
 	}
@@ -206,7 +217,7 @@ static void c16_run(void) {
 	if (C.ch_count && C.last_handler_end > C.ch_start) h_viol("cancel-handler-early", "an event handler invocation ended after the cancellation handler had started");
 	if (sim_epoll_ctl_ebadf) h_viol("epoll-after-close", "the library issued epoll_ctl on a descriptor that had already been closed (%d time(s))", sim_epoll_ctl_ebadf);
 	RES.counters[0] = C.handler_starts; RES.counters[1] = C.starts_after_cancel_ret; RES.counters[2] = C.ch_count; RES.counters[3] = sim_st.probe[14]; RES.counters[4] = sim_st.probe[15];
-	RES.counters[5 + C.stype] = 1; RES.counters[9] = C.caw_late_starts; RES.counters[10] = C.caw_returned_while_running;
+	RES.counters[C.stype == ST_SIGNAL ? 11 : 5 + C.stype] = 1; RES.counters[12] = sim_st.fired[K_SIGMISS]; RES.counters[9] = C.caw_late_starts; RES.counters[10] = C.caw_returned_while_running;
 	RES.nontrivial = C.handler_starts > 0 && (sim_st.watched_preempts > 0 || sim_st.fired[K_STALL] > 0);
 }
 static void c16_tune(sim_knobs *k, unsigned cfg, uint64_t *g) {
@@ -217,6 +228,6 @@ static void c16_tune(sim_knobs *k, unsigned cfg, uint64_t *g) {
 	k->step_cap = 4000000;
 }
 static const char *const c16_names[] = { "event_handler_invocations", "invocations_started_after_cancel_returned", "cancel_handler_runs", "hangups_merged", "deferred_unregistrations",
-	"timer_runs", "data_runs", "read_runs", "write_runs", "handler_starts_after_cancel_and_wait_returned", "cancel_and_wait_returned_while_handler_running", NULL };
+	"timer_runs", "data_runs", "read_runs", "write_runs", "handler_starts_after_cancel_and_wait_returned", "cancel_and_wait_returned_while_handler_running", "signal_runs", "signalfd_misfires", NULL };
 const prop_def prop_C16 = { "C16", c16_tune, c16_run, c16_names,
 	"non-trivial: the event handler ran at least once before the cancellation and a pre-emption/stall was taken inside the source's atomics; distinct = distinct schedule signatures among those" };
